@@ -23,6 +23,15 @@ def special_payloads(bundle, rnd):
         pl, _ = gen_messages.build(ident, bundle, rnd, values="random", count="max", mask="dense")
         if pl:
             out.append(pl)
+    # groups with 100 and more elements (three-digit indices)
+    for ident, ov in (("1029", {"DF139": 100}), ("1029", {"DF139": 255}), ("1007", {"DF029": 120}), ("1008", {"DF029": 31, "DF032": 101}),
+                      ("1033", {"DF029": 100, "DF227": 130})):
+        try:
+            pl, _ = gen_messages.build(ident, bundle, rnd, values="random", count=3, overrides=ov)
+        except Exception:  # pylint: disable=broad-except
+            pl = None
+        if pl and len(pl) <= 1023:
+            out.append(pl)
     # payloads that are themselves complete, checksum-consistent frames (a frame inside a frame)
     out += [pl for pl in framelike_payloads(rnd) if len(pl) >= 8]
     out += crc_targeted_payloads(bundle, rnd)
